@@ -347,7 +347,11 @@ ADDED = {
     "C19": ("Later additions: BcpInterface.process_bcp_message hands the decoded parameters on unchanged (bounded: one "
             "command); helper functions behind functools.lru_cache are executed with a key-confusion model (1 == 1.0 "
             "== True share an entry).", ""),
-    "C20": ("Later addition: the game side of a denied player_add_request (C06's P1-P3) is re-checked here.", ""),
+    "C20": ("Later additions: the game side of a denied player_add_request (C06's P1-P3) is re-checked here; the "
+            "set-up path (mode_start, enable_credit_play, enable_free_play, toggle_credit_play, mode_stop, "
+            "_calculate_credit_units) is under contract: in credit play every coin switch, the service switch and every "
+            "credit event has exactly one credit handler and the price is calculated (bounded: 2 coin switches); two "
+            "genuine defects found there were repaired (e62e4b1, 209f925).", "_calculate_pricing_tiers stays assumed."),
     "C03": ("Later addition: _process_active_timed_switches (hold-time handlers: H1/H2, bounded 1..3 deadlines).", ""),
     "C08": ("Later additions: PlatformController._get_configured_driver_no_hold / _with_hold keep rule settings within "
             "the driver's limits; DriverLight.set_brightness passes the brightness on.", ""),
